@@ -14,7 +14,12 @@ import (
 	"github.com/gauss-project/aurorafs/pkg/boson"
 	"github.com/gauss-project/aurorafs/pkg/encryption"
 	encstore "github.com/gauss-project/aurorafs/pkg/encryption/store"
+	"github.com/gauss-project/aurorafs/pkg/file/pipeline"
+	"github.com/gauss-project/aurorafs/pkg/file/pipeline/bmt"
 	"github.com/gauss-project/aurorafs/pkg/file/pipeline/builder"
+	penc "github.com/gauss-project/aurorafs/pkg/file/pipeline/encryption"
+	"github.com/gauss-project/aurorafs/pkg/file/pipeline/hashtrie"
+	pstore "github.com/gauss-project/aurorafs/pkg/file/pipeline/store"
 	"github.com/gauss-project/aurorafs/pkg/storage"
 	"golang.org/x/crypto/sha3"
 
@@ -31,7 +36,8 @@ func (prop) Rule() string {
 	return "cases: (a) an Encryption instance (key lengths 32, sometimes 1/16/31/33/40; padding 0 / 4096 / C / small; counters 0, C/64, 2^32-1, random) encrypts payloads of length 0,1,31,32,33,63..65, padding-1, padding, padding+1, random, " +
 		"several times without Reset (running segment index), then Reset + Decrypt of the last ciphertext (round trip) and decrypts of arbitrary bytes; (b) EncryptChunk on span||data with |data| in 0,1,32,4096,C-1,C,C+1 followed by the decrypting store's Get on the result; " +
 		"(c) synthetic encrypted chunks (real encryption package, |payload| = C) whose span is 0,1,C-1,C,C+1, k*C+-1, C*4096^h+-1, random < 2^62, and values near 2^63 and 2^64 (wrap-around of the uint64 loop), wrong reference lengths, short stored chunks; " +
-		"(d) files written by the real encrypted pipeline (sizes around the chunk and level boundaries; thorough: around 4096 chunks = 1 GiB) whose every chunk is fetched through the decrypting store and compared with the expected tree shape and content, plus single-path gets. " +
+		"(d) files written by the real encrypted pipeline (sizes around the chunk and level boundaries; thorough: around 4096 chunks = 1 GiB) whose every chunk is fetched through the decrypting store and compared with the expected tree shape and content, plus single-path gets; " +
+		"(e) `trie seed n last`: the hash-trie writer of the encrypted pipeline (hashtrie.NewHashTrieWriter(ChunkSize, Branches/2, 64, encryption->bmt->store)) is fed the (span, address, key) triples of n full data chunks (+ one of `last` bytes) without any data, so subtrees of 2^32 bytes and more are reached: 16384 chunks = exactly 4 GiB (fix-trie-4gib), 16385 (fix-trie-4gib-plus-chunk), thorough: 16383 chunks + C-1 bytes and 8 random n up to 40961; root and intermediate chunks are read back through the decrypting store (span = sum of the leaf spans: trie-span-not-sum-of-leaves; payload = 64 bytes per child: strip-intermediate), `get <path>` on them goes through the model as for pipeline files (a path reaching a leaf answers err: leaves are not stored). " +
 		"Random keys and padding drawn by the code are passed to the model as annotations. Non-trivial: the case contains a round trip, a store Get or a pipeline file; distinct by op-list hash."
 }
 
@@ -221,6 +227,41 @@ func (prop) Gen(r *core.Rand, tier string) []core.Case {
 		}
 		cs = append(cs, c)
 	}
+	// seeded change C08-3 (the hash-trie writer wrote the summed span of an intermediate chunk with 32 bits): subtrees of
+	// 4 GiB and more, reached by `trie seed n last` = the (span, address, key) triples of n full data chunks (+ one of
+	// `last` bytes) written to the real hash-trie writer of the encrypted pipeline; `get` then reads root and children
+	// through the decrypting store.  16384 chunks = exactly 2^32.
+	trie := func(id string, n, last int, full bool) {
+		c := core.Case{ID: id, NT: true, Ops: []string{fmt.Sprintf("trie %d %d %d", r.Intn(1000), n, last), "get -"}}
+		k := n
+		if last > 0 {
+			k++
+		}
+		switch {
+		case !full: // quick tier: every decrypting Get costs ~16000 Keccak calls
+			if k > B {
+				c.Ops = append(c.Ops, "get 0")
+			}
+		case k > B:
+			k2 := (k + B - 1) / B
+			c.Ops = append(c.Ops, "get 0", fmt.Sprintf("get %d", k2-1), fmt.Sprintf("get %d", k2), "get 0.0", fmt.Sprintf("get %d.0", k2-1))
+		default:
+			c.Ops = append(c.Ops, "get 0", fmt.Sprintf("get %d", k))
+		}
+		cs = append(cs, c)
+	}
+	th := tier == "thorough"
+	trie("fix-trie-4gib", 16384, 0, th)
+	trie("fix-trie-4gib-plus-chunk", 16385, 0, th)
+	cs = append(cs, core.Case{ID: "fix-trie-protocol", Ops: []string{"trie 1 1 0", "trie 1 0 5", "trie 1 3 262145", "trie 1 100001 0", "trie 1 2 0", "get 0", "get 0.0", "get 2"}})
+	if th {
+		trie("fix-trie-below-4gib", 16383, C-1, true)
+		for i := 0; i < 8; i++ {
+			n := r.Pick([]int{2, 4095, 4096, 4097, 8192, 16383, 16384, 16384, 16385, 20480, 32768, 40961, r.Range(2, 40000), r.Range(16384, 40000)})
+			last := r.Pick([]int{0, 0, 1, C - 1, C, r.Range(1, C)})
+			trie(fmt.Sprintf("tr%d", i), n, last, true)
+		}
+	}
 	return cs
 }
 
@@ -280,6 +321,75 @@ type file struct {
 	root []byte
 	st   *mapStore
 	src  *periodic
+}
+
+// trieFile: the hash-trie writer of builder.newEncryptionPipeline (ChunkSize, Branches/2, 64-byte references, short
+// pipeline encryption -> bmt -> store) fed with the (span, address, key) triples of n full data chunks and, if
+// last > 0, one of `last` bytes — the leaves' data never reaches that writer, so files of 4 GiB and more cost
+// nothing.  Returns the root reference; the leaves themselves are not in the store.
+func trieFile(st *mapStore, seed uint64, n, last int) ([]byte, error) {
+	short := func() pipeline.ChainWriter {
+		lsw := pstore.NewStoreWriter(bg, st, storage.ModePutUpload, nil)
+		return penc.NewEncryptionWriter(encryption.NewChunkEncrypter(), bmt.NewBmtWriter(lsw))
+	}
+	tw := hashtrie.NewHashTrieWriter(boson.ChunkSize, boson.Branches/2, boson.HashSize+encryption.KeyLength, short)
+	leaf := func(i int, span int) error {
+		// synthetic address / key of leaf i: (seed, i) spelled out, no hashing (the writer never looks inside)
+		var sp [8]byte
+		binary.LittleEndian.PutUint64(sp[:], uint64(span))
+		a, k := bytes.Repeat([]byte{'A'}, 32), bytes.Repeat([]byte{'K'}, 32)
+		binary.LittleEndian.PutUint64(a[:8], seed)
+		binary.LittleEndian.PutUint64(a[8:16], uint64(i))
+		binary.LittleEndian.PutUint64(k[:8], seed)
+		binary.LittleEndian.PutUint64(k[8:16], uint64(i))
+		return tw.ChainWrite(&pipeline.PipeWriteArgs{Span: sp[:], Ref: a, Key: k})
+	}
+	for i := 0; i < n; i++ {
+		if err := leaf(i, C); err != nil {
+			return nil, err
+		}
+	}
+	if last > 0 {
+		if err := leaf(n, last); err != nil {
+			return nil, err
+		}
+	}
+	return tw.Sum()
+}
+
+// walkTrie: model-free clauses on the intermediate chunks of a trieFile, read through the decrypting store:
+// the span is the subtree's length (all leaves full but the last) and the payload is restored to 64 bytes per child.
+func (rn *runner) walkTrie(ctx *core.Ctx, st *mapStore, ref, d []byte, s int, bad *bool) {
+	if s <= C || *bad {
+		return // a leaf: not stored
+	}
+	if d == nil { // (the root's data is handed in by the caller)
+		ch, err := encstore.New(st).Get(bg, storage.ModeGetRequest, boson.NewAddress(ref))
+		if err != nil {
+			*bad = true
+			ctx.Fail("trie-chunk-missing", "intermediate chunk of span %d: %v", s, err)
+			return
+		}
+		d = ch.Data()
+	}
+	k, fl := children(s)
+	if len(d) < 8 || binary.LittleEndian.Uint64(d[:8]) != uint64(s) {
+		*bad = true
+		ctx.Fail("trie-span-not-sum-of-leaves", "intermediate chunk over %d children carries span %d, its leaves' spans add up to %d", k, binary.LittleEndian.Uint64(d[:8]), s)
+		return
+	}
+	if len(d)-8 != 64*k {
+		*bad = true
+		ctx.Fail("strip-intermediate", "intermediate chunk of span %d with %d children restored to %d bytes", s, k, len(d)-8)
+		return
+	}
+	for i := 0; i < k; i++ {
+		cs := fl
+		if i == k-1 {
+			cs = s - (k-1)*fl
+		}
+		rn.walkTrie(ctx, st, d[8+64*i:8+64*i+64], nil, cs, bad)
+	}
 }
 
 type runner struct {
@@ -575,6 +685,28 @@ func (rn *runner) Step(ctx *core.Ctx, op []string) string {
 			ctx.Fail("pipeline-leaf-total", "leaves hold %d bytes of a %d-byte file", leafBytes, n)
 		}
 		return fmt.Sprintf("ok %d %d %d %d", binary.LittleEndian.Uint64(rootCh.Data()[:8]), len(rootCh.Data())-8, count, leafBytes)
+	case len(op) == 4 && op[0] == "trie":
+		seed, e1 := strconv.ParseUint(op[1], 10, 32)
+		n, e2 := strconv.Atoi(op[2])
+		last, e3 := strconv.Atoi(op[3])
+		if e1 != nil || e2 != nil || e3 != nil || n < 1 || n > 100000 || last < 0 || last > C || (n == 1 && last == 0) {
+			return "bad-op"
+		}
+		st := &mapStore{m: map[string][]byte{}}
+		rn.f = nil
+		root, err := trieFile(st, seed, n, last)
+		if err != nil || len(root) != 64 {
+			return "err"
+		}
+		total := n*C + last
+		rn.f = &file{n: total, root: root, st: st}
+		rootCh, err := encstore.New(st).Get(bg, storage.ModeGetRequest, boson.NewAddress(root))
+		if err != nil {
+			return "err"
+		}
+		bad := false
+		rn.walkTrie(ctx, st, root, rootCh.Data(), total, &bad)
+		return fmt.Sprintf("ok %d %d", binary.LittleEndian.Uint64(rootCh.Data()[:8]), len(rootCh.Data())-8)
 	case len(op) == 2 && op[0] == "get":
 		if rn.f == nil {
 			return "nofile"
